@@ -124,6 +124,31 @@ impl<R: Registry> VxRawTable<R> {
     pub fn vx_insert(&mut self, hash: u64, value: archetype::Archetype<R>)
         requires hash == vx_hash(value.key()), !old(self)@.dom().contains(value.key()),
         ensures final(self)@ == old(self)@.insert(value.key(), value) { unimplemented!() }
+    /// R14: the bucket the (unsafe) raw iterator yields at position `i` of the enumeration
+    #[verifier::external_body]
+    pub fn vx_nth_bucket(&self, i: usize, keys: Ghost<Seq<archetype::IdentifierRef<R>>>) -> (r: VxBucket<R>)
+        requires self.enumerates(keys@), i < keys@.len(),
+        ensures r.key() == keys@[i as int] { unimplemented!() }
+    /// `Bucket::as_mut`: the element a live bucket points at
+    #[verifier::external_body]
+    pub unsafe fn vx_bucket_mut(&mut self, b: &VxBucket<R>) -> (r: &mut archetype::Archetype<R>)
+        requires old(self)@.dom().contains(b.key()),
+        ensures *r == old(self)@[b.key()], final(self)@ == old(self)@.insert(b.key(), *final(r)) { unimplemented!() }
+    /// `RawTable::erase`: the bucket must be live (hashbrown's safety contract)
+    #[verifier::external_body]
+    pub unsafe fn erase(&mut self, b: VxBucket<R>)
+        requires old(self)@.dom().contains(b.key()),
+        ensures final(self)@ == old(self)@.remove(b.key()) { unimplemented!() }
+    #[verifier::external_body]
+    pub fn shrink_to(&mut self, n: usize)
+        ensures final(self)@ == old(self)@ { unimplemented!() }
+}
+/// hashbrown `Bucket<Archetype<R>>`: identified by the key of the element it points at
+#[verifier::external_body]
+#[verifier::accept_recursive_types(R)]
+pub struct VxBucket<R: Registry> { p: PhantomData<R> }
+impl<R: Registry> VxBucket<R> {
+    pub uninterp spec fn key(&self) -> archetype::IdentifierRef<R>;
 }
 
 // ---- hashbrown::HashMap<&'static [u8], IdentifierRef<R>> (bytes -> token) -----------------
@@ -142,6 +167,19 @@ impl<R: Registry> VxBytesMap<R> {
     pub unsafe fn vx_insert_unique_unchecked(&mut self, bytes: Ghost<Seq<u8>>, value: archetype::IdentifierRef<R>)
         requires !old(self)@.dom().contains(bytes@),
         ensures final(self)@ == old(self)@.insert(bytes@, value) { unimplemented!() }
+    /// R5h: `self.iter().filter_map(|(&k, v)| if set.contains(v) { Some(k) } else { None }).collect::<Vec<_>>()`
+    #[verifier::external_body]
+    pub fn vx_keys_with_value_in(&self, set: &VxTokenSet<R>) -> (r: Vec<VxSliceKey>)
+        ensures forall|b: Seq<u8>| (exists|j: int| 0 <= j < r@.len() && (#[trigger] r@[j])@ == b) == (self@.dom().contains(b) && set@.contains(self@[b])) { unimplemented!() }
+    #[verifier::external_body]
+    pub fn remove(&mut self, k: VxSliceKey)
+        ensures final(self)@ == old(self)@.remove(k@) { unimplemented!() }
+}
+/// a `&'static [u8]` key of the bytes map
+#[verifier::external_body]
+pub struct VxSliceKey { _p: () }
+impl VxSliceKey {
+    pub uninterp spec fn view(&self) -> Seq<u8>;
 }
 // ---- hashbrown::HashMap<TypeId, IdentifierRef<R>> -----------------------------------------
 #[verifier::external_body]
@@ -169,6 +207,13 @@ impl<R: Registry> VxTypeMap<R> {
     pub fn vx_nth_pair(&self, i: usize, ts: Ghost<Seq<TypeId>>) -> (r: (TypeId, &archetype::IdentifierRef<R>))
         requires self.enumerates(ts@), i < ts@.len(),
         ensures r.0 == ts@[i as int], *r.1 == self@[ts@[i as int]] { unimplemented!() }
+    /// R5h: `self.iter().filter_map(|(&k, v)| if set.contains(v) { Some(k) } else { None }).collect::<Vec<_>>()`
+    #[verifier::external_body]
+    pub fn vx_keys_with_value_in(&self, set: &VxTokenSet<R>) -> (r: Vec<TypeId>)
+        ensures forall|t: TypeId| #[trigger] r@.contains(t) == (self@.dom().contains(t) && set@.contains(self@[t])) { unimplemented!() }
+    #[verifier::external_body]
+    pub fn remove(&mut self, t: &TypeId)
+        ensures final(self)@ == old(self)@.remove(*t) { unimplemented!() }
 }
 
 // ---- hashbrown::HashMap<IdentifierRef, IdentifierRef> (the key map of clone / clone_from) ----
@@ -198,6 +243,10 @@ impl<R: Registry> VxTokenSet<R> {
     pub uninterp spec fn view(&self) -> ISet<archetype::IdentifierRef<R>>;
     #[verifier::external_body]
     pub fn contains(&self, t: &archetype::IdentifierRef<R>) -> (b: bool) ensures b == self@.contains(*t) { unimplemented!() }
+    #[verifier::external_body]
+    pub fn vx_new() -> (r: Self) ensures r@ == ISet::<archetype::IdentifierRef<R>>::empty() { unimplemented!() }
+    #[verifier::external_body]
+    pub fn insert(&mut self, t: archetype::IdentifierRef<R>) -> (b: bool) ensures final(self)@ == old(self)@.insert(t) { unimplemented!() }
 }
 
 /// `c` is a value copy of table `t` under key `k2` (C10): same identifiers, same rows, same
@@ -514,9 +563,183 @@ EQ_END = r'''proof {
         }'''
 
 
-def build():
+SHRINK_SPEC = r"""
+/// `a` is table `b` after `Archetype::shrink_to_fit` (or untouched): same key, identifiers, rows
+pub open spec fn vx_same_table<R: Registry>(a: archetype::Archetype<R>, b: archetype::Archetype<R>) -> bool {
+    a.wf() && a.key() == b.key() && a.length == b.length && a.ids() == b.ids() && a.rows() == b.rows()
+}
+"""
+
+SHRINK_LOOPS = [
+    # loop 1: every table -- empty ones are marked, the others shrunk
+    Loop(invariant=[
+        ("sh1.enum", "vx_i1 <= vx_n1 && self.raw_archetypes.enumerates(vx_keys1@)"),
+        ("sh1.frame", "self@.dom() == vx_a0@.dom() && self.foreign_identifier_lookup == vx_a0.foreign_identifier_lookup && self.type_id_lookup == vx_a0.type_id_lookup && self.hash_builder == vx_a0.hash_builder"),
+        ("sh1.done", "forall|j: int| 0 <= j < vx_i1 ==> vx_same_table(#[trigger] self@[vx_keys1@[j]], vx_a0@[vx_keys1@[j]])"),
+        ("sh1.todo", "forall|j: int| vx_i1 <= j < vx_n1 ==> (#[trigger] self@[vx_keys1@[j]]) == vx_a0@[vx_keys1@[j]]"),
+        ("sh1.set_sound", "forall|k: archetype::IdentifierRef<R>| #[trigger] identifiers_to_erase@.contains(k) ==> vx_a0@.dom().contains(k) && vx_a0@[k].length == 0"),
+        ("sh1.set_complete", "forall|j: int| 0 <= j < vx_i1 && vx_a0@[vx_keys1@[j]].length == 0 ==> identifiers_to_erase@.contains(#[trigger] vx_keys1@[j])"),
+        ("sh1.set_not_future", "forall|j: int| vx_i1 <= j < vx_n1 ==> !identifiers_to_erase@.contains(#[trigger] vx_keys1@[j])"),
+        ("sh1.ek", "vx_ek.len() == archetypes_to_erase@.len() && forall|a: int| 0 <= a < vx_ek.len() ==> (#[trigger] archetypes_to_erase@[a]).key() == vx_ek[a]"),
+        ("sh1.ek_set", "forall|k: archetype::IdentifierRef<R>| identifiers_to_erase@.contains(k) == vx_ek.contains(k)"),
+        ("sh1.ek_distinct", "vx_ek.no_duplicates()"),
+    ], decreases="vx_n1 - vx_i1"),
+    # loop 2: type cache entries of marked tables removed
+    Loop(invariant=[
+        ("sh2.frame", "self.raw_archetypes == vx_s1.raw_archetypes && self.foreign_identifier_lookup == vx_s1.foreign_identifier_lookup"),
+        ("sh2.sub", "forall|t: TypeId| #[trigger] self.type_id_lookup@.dom().contains(t) ==> vx_s1.type_id_lookup@.dom().contains(t) && self.type_id_lookup@[t] == vx_s1.type_id_lookup@[t]"),
+        ("sh2.count", "vx_c == vx_it2.index@ && vx_it2.seq() == vx_q2"),
+        ("sh2.removed", "forall|a: int| 0 <= a < vx_c ==> !self.type_id_lookup@.dom().contains(#[trigger] vx_q2[a])"),
+    ]),
+    # loop 3: bytes lookup entries of marked tables removed
+    Loop(invariant=[
+        ("sh3.frame", "self.raw_archetypes == vx_s2.raw_archetypes && self.type_id_lookup == vx_s2.type_id_lookup"),
+        ("sh3.sub", "forall|b: Seq<u8>| #[trigger] self.foreign_identifier_lookup@.dom().contains(b) ==> vx_s2.foreign_identifier_lookup@.dom().contains(b) && self.foreign_identifier_lookup@[b] == vx_s2.foreign_identifier_lookup@[b]"),
+        ("sh3.kept", "forall|b: Seq<u8>| #[trigger] vx_s2.foreign_identifier_lookup@.dom().contains(b) && !vx_set.contains(vx_s2.foreign_identifier_lookup@[b]) ==> self.foreign_identifier_lookup@.dom().contains(b)"),
+        ("sh3.count", "vx_c == vx_it3.index@ && vx_it3.seq() == vx_q3"),
+        ("sh3.removed", "forall|a: int| 0 <= a < vx_c ==> !self.foreign_identifier_lookup@.dom().contains((#[trigger] vx_q3[a])@)"),
+    ]),
+    # loop 4: marked tables erased
+    Loop(invariant=[
+        ("sh4.frame", "self.foreign_identifier_lookup == vx_s3.foreign_identifier_lookup && self.type_id_lookup == vx_s3.type_id_lookup"),
+        ("sh4.count", "vx_c == vx_it4.index@ && vx_it4.seq() == vx_q4"),
+        ("sh4.dom", "forall|k: archetype::IdentifierRef<R>| #[trigger] self@.dom().contains(k) == (vx_s3@.dom().contains(k) && !(exists|a: int| 0 <= a < vx_c && vx_ek[a] == k))"),
+        ("sh4.same", "forall|k: archetype::IdentifierRef<R>| self@.dom().contains(k) ==> (#[trigger] self@[k]) == vx_s3@[k]"),
+    ]),
+]
+
+SH1_STEP = r"""proof {
+                let k = vx_keys1@[vx_i1 as int];
+                assert(vx_keys1@.contains(k));
+                assert(vx_pre@.dom().contains(k));
+                assert(vx_pre@[k] == vx_a0@[k]);
+                assert(vx_a0@[k].key() == k);
+                assert(self@.dom() =~= vx_pre@.dom());
+                assert forall|j: int| 0 <= j < vx_n1 && j != vx_i1 implies #[trigger] self@[vx_keys1@[j]] == vx_pre@[vx_keys1@[j]] by {
+                    assert(vx_keys1@[j] != k);
+                }
+                if vx_a0@[k].length == 0 {
+                    assert(self@[k] == vx_pre@[k]);
+                    assert(vx_ek == vx_ek0.push(k));
+                    assert forall|k2: archetype::IdentifierRef<R>| identifiers_to_erase@.contains(k2) == vx_ek.contains(k2) by {
+                        if k2 == k { assert(vx_ek[vx_ek.len() - 1] == k); }
+                        else if vx_ek0.contains(k2) {
+                            let a = choose|a: int| 0 <= a < vx_ek0.len() && vx_ek0[a] == k2;
+                            assert(vx_ek[a] == k2);
+                        } else if vx_ek.contains(k2) {
+                            let a = choose|a: int| 0 <= a < vx_ek.len() && vx_ek[a] == k2;
+                            assert(a < vx_ek0.len());
+                            assert(vx_ek0[a] == k2);
+                        }
+                    }
+                    assert(!vx_ek0.contains(k));
+                    assert(vx_ek.no_duplicates());
+                } else {
+                    assert(vx_ek == vx_ek0);
+                }
+                assert forall|j: int| vx_i1 + 1 <= j < vx_n1 implies !identifiers_to_erase@.contains(#[trigger] vx_keys1@[j]) by {
+                    assert(vx_keys1@[j] != k);
+                }
+            }"""
+
+SH_PRE2 = r"""let ghost vx_s1 = *self; let ghost vx_set = identifiers_to_erase@;
+        proof {
+            assert forall|k: archetype::IdentifierRef<R>| vx_s1@.dom().contains(k) implies vx_same_table(#[trigger] vx_s1@[k], vx_a0@[k]) by {
+                assert(vx_keys1@.contains(k));
+                let j = choose|j: int| 0 <= j < vx_keys1@.len() && vx_keys1@[j] == k;
+                assert(vx_same_table(vx_s1@[vx_keys1@[j]], vx_a0@[vx_keys1@[j]]));
+            }
+            assert forall|k: archetype::IdentifierRef<R>| vx_a0@.dom().contains(k) && vx_a0@[k].length == 0 implies #[trigger] vx_set.contains(k) by {
+                assert(vx_keys1@.contains(k));
+                let j = choose|j: int| 0 <= j < vx_keys1@.len() && vx_keys1@[j] == k;
+                assert(identifiers_to_erase@.contains(vx_keys1@[j]));
+            }
+        }"""
+
+SH_PRE3 = r"""let ghost vx_s2 = *self;
+        proof {
+            // no remaining type-cache entry points at a marked table
+            assert forall|t: TypeId| #[trigger] vx_s2.type_id_lookup@.dom().contains(t) implies !vx_set.contains(vx_s2.type_id_lookup@[t]) by {
+                if vx_set.contains(vx_s1.type_id_lookup@[t]) {
+                    assert(vx_q2.contains(t));
+                    let a = choose|a: int| 0 <= a < vx_q2.len() && vx_q2[a] == t;
+                    assert(!vx_s2.type_id_lookup@.dom().contains(vx_q2[a]));
+                }
+            }
+        }"""
+
+SH_PRE4 = r"""let ghost vx_s3 = *self;
+        proof {
+            assert forall|b: Seq<u8>| #[trigger] vx_s3.foreign_identifier_lookup@.dom().contains(b) implies !vx_set.contains(vx_s3.foreign_identifier_lookup@[b]) by {
+                if vx_set.contains(vx_s2.foreign_identifier_lookup@[b]) {
+                    let a = choose|a: int| 0 <= a < vx_q3.len() && (#[trigger] vx_q3[a])@ == b;
+                    assert(!vx_s3.foreign_identifier_lookup@.dom().contains(vx_q3[a]@));
+                }
+            }
+        }"""
+
+SH4_STEP = r"""proof {
+                let a0 = vx_c;
+                assert(archetype_bucket.key() == vx_ek[a0]);
+                assert(self@.dom().contains(vx_ek[a0])) by {
+                    assert(vx_ek.contains(vx_ek[a0]));
+                    assert(vx_set.contains(vx_ek[a0]));
+                    assert forall|a: int| 0 <= a < a0 implies vx_ek[a] != vx_ek[a0] by { }
+                }
+            }"""
+
+SH_END = r"""proof {
+            assert(self@ == vx_s4@);
+            assert(vx_c == vx_ek.len());
+            assert(vx_s3@.dom() == vx_a0@.dom());
+            assert(identifiers_to_erase@ == vx_set);
+            assert forall|k: archetype::IdentifierRef<R>| #![trigger self@.dom().contains(k)] #![trigger vx_a0@[k]] self@.dom().contains(k) == (vx_a0@.dom().contains(k) && vx_a0@[k].length > 0) by {
+                if vx_a0@.dom().contains(k) && vx_a0@[k].length == 0 {
+                    assert(vx_set.contains(k));
+                    assert(vx_ek.contains(k));
+                    let a = choose|a: int| 0 <= a < vx_ek.len() && vx_ek[a] == k;
+                    assert(0 <= a < vx_c && vx_ek[a] == k);
+                }
+                if vx_a0@.dom().contains(k) && vx_a0@[k].length > 0 {
+                    assert(!vx_set.contains(k));
+                    assert(!vx_ek.contains(k));
+                }
+            }
+            assert forall|k: archetype::IdentifierRef<R>| #[trigger] self@.dom().contains(k) implies
+                self.foreign_identifier_lookup@.dom().contains(vx_key_bits(k)) && self.foreign_identifier_lookup@[vx_key_bits(k)] == k by {
+                assert(vx_a0@.dom().contains(k));
+                assert(vx_a0.foreign_identifier_lookup@[vx_key_bits(k)] == k);
+                assert(!vx_set.contains(k));
+            }
+        }"""
+
+SHRINK_HINTS = [
+    Hint("start", "let ghost vx_a0 = *self; let ghost mut vx_ek = Seq::<archetype::IdentifierRef<R>>::empty(); let ghost mut vx_ek0 = vx_ek; let ghost mut vx_pre = *self; let ghost mut vx_c: int = 0;"),
+    Hint("before", "proof { vx_pre = *self; vx_ek0 = vx_ek; assert(vx_keys1@.contains(vx_keys1@[vx_i1 as int])); }", anchor=r"let archetype_bucket = self\.raw_archetypes\.vx_nth_bucket\(vx_i1, vx_keys1\)"),
+    Hint("after", "proof { vx_ek = vx_ek.push(archetype_bucket.key()); }", anchor=r"archetypes_to_erase\.push\(archetype_bucket\)"),
+    Hint("before", SH1_STEP, anchor=r"vx_i1 \+= 1;"),
+    Hint("before", SH_PRE2, anchor=r"let vx_v2 = "),
+    Hint("after", "proof { vx_c = 0; }", anchor=r"let ghost vx_q2 = vx_v2@"),
+    Hint("after", "proof { vx_c = vx_c + 1; }", anchor=r"self\.type_id_lookup\.remove\(&type_id\)"),
+    Hint("before", SH_PRE3, anchor=r"let vx_v3 = "),
+    Hint("after", "proof { vx_c = 0; }", anchor=r"let ghost vx_q3 = vx_v3@"),
+    Hint("after", "proof { vx_c = vx_c + 1; }", anchor=r"self\.foreign_identifier_lookup\.remove\(slice\)"),
+    Hint("before", SH_PRE4, anchor=r"let ghost vx_q4 = archetypes_to_erase@"),
+    Hint("after", "proof { vx_c = 0; }", anchor=r"let ghost vx_q4 = archetypes_to_erase@"),
+    Hint("after", "proof { vx_c = vx_c + 1; }", anchor=r"self\.raw_archetypes\.erase\(archetype_bucket\)"),
+    Hint("before", SH4_STEP, anchor=r"unsafe \{\s*self\.raw_archetypes\.erase\(archetype_bucket\)"),
+    Hint("before", "let ghost vx_s4 = *self;", anchor=r"self\.raw_archetypes\s*\.shrink_to\(0\)"),
+    Hint("end", SH_END),
+]
+
+def build(only=None, name="archs"):
+    """`only`: names of Archetypes functions whose bodies are verified in this unit; every other
+    extracted function is emitted with its contract and `external_body` (its body is verified in
+    unit archs).  Used by unit archs_shrink: Archetypes::shrink_to_fit is kept in a file of its own
+    because its `for x in Vec` loops pull more of vstd into the solver context, which made three
+    older proofs of this unit unstable (solver budget, not semantics)."""
     u = arch.build()
-    u.name = "archs"
+    u.name = name
     u.text(PRELUDE)
     u.struct(AS, "Archetypes", field_rewrites=[
         (r"raw_archetypes:\s*RawTable<Archetype<R>>", "raw_archetypes: VxRawTable<R>", "R7: hashbrown RawTable of tables, keyed by table token"),
@@ -655,6 +878,30 @@ def build():
            props=["C10", "C13", "C01", "C04"]),
     ])
 
+    FILTER = lambda m, k: (r"for (\w+) in self\s*\.%s\s*\.iter\(\)\s*\.filter_map\(\|\(&%s, identifier\)\| \{\s*if identifiers_to_erase\.contains\(identifier\) \{\s*Some\(%s\)\s*\} else \{\s*None\s*\}\s*\}\)\s*\.collect::<Vec<_>>\(\)" % (m, k, k),
+                           "let vx_v# = self.%s.vx_keys_with_value_in(&identifiers_to_erase); let ghost vx_q# = vx_v#@; for \\1 in vx_it#: vx_v#" % m,
+                           "R5h: keys of a hashbrown map whose value lies in a set, collected into a Vec (assumed-contract call); the `for` over that Vec gets an iterator name for its invariant")
+    u.text(SHRINK_SPEC)
+    if only and "shrink_to_fit" in only:
+      u.impl("impl<R> Archetypes<R> where R: Registry", [
+          Fn(AS, IMPL, "shrink_to_fit",
+             rewrites=[(r"HashSet::with_hasher\(FnvBuildHasher::default\(\)\)", "VxTokenSet::vx_new()", "R7: hashbrown HashSet of table tokens"),
+                       (r"let mut archetypes_to_erase = Vec::new\(\);", "let mut archetypes_to_erase: Vec<VxBucket<R>> = Vec::new();", "type ascription (the element type is inferred from a later push in rustc)"),
+                       (r"let archetype = unsafe \{ archetype_bucket\.as_mut\(\) \};", "let archetype = unsafe { self.raw_archetypes.vx_bucket_mut(&archetype_bucket) };", "R7c: Bucket::as_mut -> access through the table the bucket belongs to"),
+                       tuple(x.replace("#", "2") for x in FILTER("type_id_lookup", "type_id")),
+                       tuple(x.replace("#", "3") for x in FILTER("foreign_identifier_lookup", "slice")),
+                       (r"for archetype_bucket in archetypes_to_erase \{", "let ghost vx_q4 = archetypes_to_erase@; for archetype_bucket in vx_it4: archetypes_to_erase {", "iterator name and ghost snapshot for the loop invariant"),
+                       ],
+             requires=[("pre.archs_wf", "old(self).wf()"), ("pre.tables_wf", "vx_tables_wf(old(self)@)")],
+             ensures=[("C13.shrink.wf", "final(self).wf()"),
+                      ("C01.shrink.dom", "forall|k: archetype::IdentifierRef<R>| #![trigger final(self)@.dom().contains(k)] #![trigger old(self)@[k]] final(self)@.dom().contains(k) == (old(self)@.dom().contains(k) && old(self)@[k].length > 0)"),
+                      ("C01.shrink.tables", "forall|k: archetype::IdentifierRef<R>| final(self)@.dom().contains(k) ==> (#[trigger] final(self)@[k]).length == old(self)@[k].length && final(self)@[k].ids() == old(self)@[k].ids() && final(self)@[k].rows() == old(self)@[k].rows() && final(self)@[k].key() == k && final(self)@[k].wf()")],
+             loops=SHRINK_LOOPS,
+             hints=SHRINK_HINTS,
+             attrs=["#[verifier::loop_isolation(false)]"],
+             props=["C01", "C13", "C05"]),
+      ])
+
     AE = "src/archetypes/impl_eq.rs"
     EQIMPL = r"^impl<R> cmp::PartialEq for Archetypes<R>"
     u.impl("impl<R> Archetypes<R> where R: Registry", [
@@ -692,6 +939,10 @@ def build():
          "R14: iteration over the TypeId cache -> index loop over a ghost enumeration of its entries"),
     ]
     u.for_rewrites += [
+        (r"for archetype_bucket in unsafe \{ self\.raw_archetypes\.iter\(\) \}",
+         "let vx_keys# = self.raw_archetypes.vx_keys(); let vx_n# = self.raw_archetypes.vx_len(vx_keys#); let mut vx_i#: usize = 0;",
+         "vx_i# < vx_n#", "let archetype_bucket = self.raw_archetypes.vx_nth_bucket(vx_i#, vx_keys#);", "vx_i# += 1;",
+         "R14: the unsafe raw bucket iterator of the hashbrown table -> index loop over a ghost enumeration of its keys"),
         (r"for (\w+) in self\.iter_mut\(\)",
          "let vx_keys# = self.raw_archetypes.vx_keys(); let vx_n# = self.raw_archetypes.vx_len(vx_keys#); let mut vx_i#: usize = 0;",
          "vx_i# < vx_n#", r"let \1 = self.raw_archetypes.vx_nth_mut(vx_i#, vx_keys#);", "vx_i# += 1;",
@@ -726,4 +977,13 @@ def build():
         (r"foreign_identifier_lookup\s*\.get\(", "foreign_identifier_lookup.vx_get(", "R7"),
         (r"foreign_identifier_lookup\s*\.insert_unique_unchecked\(", "foreign_identifier_lookup.vx_insert_unique_unchecked(", "R7"),
     ]
+    if only:
+        for part in u.parts:
+            if part[0] == "impl":
+                for f in part[2]:
+                    if f.name not in only:
+                        f.external_body = True
+            elif part[0] == "fn" and part[1].name not in only:
+                part[1].external_body = True
+        u.contracts_from = "archs"
     return u
